@@ -152,7 +152,7 @@ class Map(util.BaseSection):
         """
         for tile_y, row in enumerate(rect):
             for tile_x, val in enumerate(row):
-                if ((tile_y + y) > 127) or ((tile_x + x) > 127):
+                if ((tile_y + y) > 63) or ((tile_x + x) > 127):
                     continue
                 self.set_cell(tile_x + x, tile_y + y, val)
 
